@@ -147,6 +147,7 @@ fn judge(c: &Canon, a: &Tbl, b: &Tbl, op: &str, locus: &str, case: &str, out: &m
 
 impl UnitRunner for C18 {
   fn unit(&mut self, payload: &str, unit: u64, out: &mut WorkerOut) {
+    if payload == "contexts" { return context_unit(unit, out); }
     // payload: "" | "L<layout>" | "P<lhs perm><rhs perm>" (column declaration orders: 0 as listed, 1 reversed, 2 rotated; layout 0)
     let li = payload.strip_prefix('L').and_then(|x| x.parse::<usize>().ok()).unwrap_or(0);
     let (lp, rp) = match payload.strip_prefix('P') { Some(x) if x.len() == 2 => (x[0..1].parse::<usize>().unwrap_or(0), x[1..2].parse::<usize>().unwrap_or(0)), _ => (0, 0) };
@@ -272,7 +273,37 @@ impl Check for C18 {
     // the same pairs (first layout) with the columns of either side declared in another order: shared columns then sit at different positions
     for lp in 0..3 { for rp in 0..3 { if (lp, rp) != (0, 0) { jobs.extend(base.iter().map(|j| Job { payload: format!("P{}{}", lp, rp), lo: j.lo, hi: j.hi })); } } }
     jobs.extend((0..5).map(|u| Job { payload: String::new(), lo: 9 * 256 + u, hi: 9 * 256 + u + 1 }));
+    jobs.extend(range_jobs("contexts", 3, 1));
     drive_ranges(cfg, rep, jobs);
     if rep.out.nontrivial < 1000 { rep.vacuity.push("too few judged joins".into()); }
   }
+}
+
+/// Joins whose operands are names bound by a match arm, and table literals whose cells are bound locally (function parameters, match-arm
+/// bindings); every local name is shadowed by a global of another value.
+fn context_unit(unit: u64, out: &mut WorkerOut) {
+  use crate::ctx::{lv, Tpl};
+  let lay = LAYOUTS[(unit as usize) % LAYOUTS.len()];
+  let a = Tbl { cols: vec!["k", "j", "a"], rows: vec![vec![1, 1, 10], vec![2, 1, 20], vec![1, 2, 30]] };
+  let b = Tbl { cols: vec!["j", "k", "b"], rows: vec![vec![1, 1, 100], vec![2, 2, 200], vec![1, 1, 300]] };
+  let z = Tbl { cols: vec!["k", "j", "a"], rows: vec![vec![2, 2, 90]] };
+  let mut s = Session::new();
+  for d in [format!("ga := {}", literal_in(&a, lay)), format!("gb := {}", literal_in(&b, lay)), format!("p := {}", literal_in(&z, lay)), format!("q := {}", literal_in(&z, lay))] { if !s.run(&d).is_value() { out.count("context_setup_rejected"); return; } }
+  let mut tpls: Vec<Tpl> = vec![];
+  for (sym, word, op) in OPS.iter() {
+    tpls.push(Tpl { local: format!("p {} q", sym), top: format!("ga {} gb", sym), vars: vec![lv("p", "ga", "table"), lv("q", "gb", "table")], scalar_operands: false, set_ok: false, tag: format!("{}:symbol", op), fn_ok: false });
+    tpls.push(Tpl { local: format!("{}(p, q)", word), top: format!("{}(ga, gb)", word), vars: vec![lv("p", "ga", "table"), lv("q", "gb", "table")], scalar_operands: false, set_ok: false, tag: format!("{}:word", op), fn_ok: false });
+    tpls.push(Tpl { local: format!("p {} gb", sym), top: format!("ga {} gb", sym), vars: vec![lv("p", "ga", "table")], scalar_operands: false, set_ok: false, tag: format!("{}:lhs-local", op), fn_ok: false });
+    tpls.push(Tpl { local: format!("ga {} q", sym), top: format!("ga {} gb", sym), vars: vec![lv("q", "gb", "table")], scalar_operands: false, set_ok: false, tag: format!("{}:rhs-local", op), fn_ok: false });
+  }
+  crate::ctx::judge_templates("C18", &mut s, &tpls, 0, &format!("ga := {}; gb := {}; p, q := {} (globals)", literal_in(&a, lay), literal_in(&b, lay), literal_in(&z, lay)), out);
+  // table literals with locally bound cells
+  let mut s = Session::new();
+  for d in ["x := 91", "y := 92", "gx := 1", "gy := 2"] { s.run(d); }
+  let cell = vec![
+    Tpl { local: "| k<f64> v<f64> | x y |".into(), top: "| k<f64> v<f64> | gx gy |".into(), vars: vec![lv("x", "gx", "f64"), lv("y", "gy", "f64")], scalar_operands: true, set_ok: false, tag: "table-literal:one-row".into(), fn_ok: false },
+    Tpl { local: "| k<f64> v<f64> | x y | y x |".into(), top: "| k<f64> v<f64> | gx gy | gy gx |".into(), vars: vec![lv("x", "gx", "f64"), lv("y", "gy", "f64")], scalar_operands: true, set_ok: false, tag: "table-literal:two-rows".into(), fn_ok: false },
+    Tpl { local: "| k<f64> v<f64> | x 5 | 6 y |".into(), top: "| k<f64> v<f64> | gx 5 | 6 gy |".into(), vars: vec![lv("x", "gx", "f64"), lv("y", "gy", "f64")], scalar_operands: true, set_ok: false, tag: "table-literal:mixed".into(), fn_ok: false },
+  ];
+  if unit == 0 { crate::ctx::judge_templates("C18", &mut s, &cell, 500, "x := 91; y := 92 (globals); gx := 1; gy := 2", out); }
 }
